@@ -284,6 +284,7 @@ def solved(ctx, thorough, terms_path):
                     judged += 1
                 k = match[0][1]
     ctx.traces += judged
+    ctx.exhaustive['binding: sampled solve configurations'] = False
     ctx.stage('replay.PrismSolve', configurations_tried=done, successful_solves_judged=judged, methods=methods)
     # direction B
     os.environ['VERIF_CLOSURE_TERMS'] = terms_path
